@@ -105,7 +105,8 @@ type cont struct {
 	m           *member.Member
 	am          *tso.AllocatorManager
 	alloc       tso.Allocator
-	ida         id.Allocator
+	ida         id.Allocator // used by `write id` (Rebase)
+	idb         id.Allocator // used by `idalloc` (Alloc); a second allocator of the same member
 	km          *encryptionkm.KeyManager
 	clock       int64
 	revokeFail  int32
@@ -169,6 +170,7 @@ func (w *world) newCont(key, mem int, clock int64) *cont {
 	}
 	c.alloc = a
 	c.ida = id.NewAllocator(c.client, w.rootOf(key), c.m.MemberValue())
+	c.idb = id.NewAllocator(c.client, w.rootOf(key), c.m.MemberValue())
 	ecfg := &encryption.Config{DataEncryptionMethod: "aes128-ctr"}
 	if err := ecfg.Adjust(); err != nil {
 		panic(err)
@@ -710,24 +712,26 @@ func (w *world) keep(c *cont) {
 	}
 	want := injectedNow().Add(v.TTL)
 	calls := election.VerifNowCalls()
+	already := v.ExpireSet && v.Expire.Equal(want)
 	ctx, cancel := context.WithCancel(c.ctx)
 	done := make(chan struct{})
 	go func() { c.m.KeepLeader(ctx); close(done) }()
-	deadline := time.Now().Add(10 * time.Second)
-	for time.Now().Before(deadline) {
-		if election.VerifNowCalls() > calls {
-			if !liveOnServer {
-				break
-			}
+	switch {
+	case !liveOnServer:
+		// the request fails at the server and nothing is stored; give it the time to come back
+		time.Sleep(4 * time.Millisecond)
+	case already:
+		// the tick stores the value that is there already: wait for the clock reading of the request, briefly
+		for end := time.Now().Add(50 * time.Millisecond); election.VerifNowCalls() == calls && time.Now().Before(end); {
+			time.Sleep(200 * time.Microsecond)
+		}
+	default:
+		for end := time.Now().Add(10 * time.Second); time.Now().Before(end); {
 			if x := ls.VerifLease(); x.ExpireSet && x.Expire.Equal(want) {
 				break
 			}
+			time.Sleep(200 * time.Microsecond)
 		}
-		time.Sleep(200 * time.Microsecond)
-	}
-	if !liveOnServer {
-		// the request fails at the server; give it the time to come back
-		time.Sleep(3 * time.Millisecond)
 	}
 	cancel()
 	<-done
@@ -1018,6 +1022,18 @@ func (w *world) exec(op string) string {
 		c.gate.SetFault(etcdh.None)
 		if p[0] == "enc" && err == nil && c.gate.Commits == commits {
 			return "noop" // the key manager did not attempt a transaction
+		}
+		return txnOut(err)
+	case f[0] == "idalloc" && len(f) == 3:
+		c := get(f[1])
+		if c == nil || c.pending != nil {
+			return bad
+		}
+		c.gate.SetFault(fault(f[2]))
+		n, err := c.idb.Alloc()
+		c.gate.SetFault(etcdh.None)
+		if err == nil {
+			return fmt.Sprintf("ok %d", n)
 		}
 		return txnOut(err)
 	case f[0] == "check" && len(f) == 2:
